@@ -131,8 +131,9 @@ def run(ctx: Ctx):
     invs = ["OperationalIsDeclarative", "RowSumZero", "DetailedBalance", "StationaryIsBoltzmannVolume"]
     ctx.model("Sqra", ctx.cfg("sq3.cfg", sqra_cfg(3, invs=invs)), workers=16, note="n=3: symmetric S/h => Boltzmann x volume stationary")
     ctx.mutant("Sqra", ctx.cfg("sq_as.cfg", sqra_cfg(3, "asymmetricS", ["StationaryIsBoltzmannVolume"])), "StationaryIsBoltzmannVolume")
-    ctx.model("Molgri", "Molgri.cfg", workers=12, note="pipeline over the artefact store, two grid specifications")
-    ctx.mutant("Molgri", ctx.cfg("mg_m.cfg", open(str(ctx.scratch.parent.parent / "spec" / "Molgri.cfg")).read().replace('"none"', '"energyOrderByRotation"')), "OneCellOrder")
+    ctx.model("Molgri", "Molgri.cfg" if thorough else "Molgri_quick.cfg", workers=12, timeout=1800,
+              note="pipeline (both workflows) over the artefact store, two grid specifications" + ("" if thorough else ", two persisted artefacts"))
+    ctx.mutant("Molgri", ctx.cfg("mg_m.cfg", open(str(ctx.scratch.parent.parent / "spec" / "Molgri_quick.cfg")).read().replace('"none"', '"energyOrderByRotation"')), "OneCellOrder")
     specs = [("4", "4", "[0.2, 0.35]", False, 2), ("8", "7", "[0.2, 0.3, 0.45]", False, 2), ("1", "12", "[0.2, 0.3]", False, 2),
              ("randomQ_5", "randomS_7", "[0.2, 0.3]", False, 1), ("cube4D_8", "cube3D_9", "[0.15, 0.3]", False, 2),
              ("5", "12", "[0.2, 0.3]", True, 2), ("8", "12", "[0.2, 0.3, 0.45]", False, 2), ("4", "ico_20", "[0.25, 0.4]", True, 1)]
